@@ -108,3 +108,8 @@ void vp_c17_phase(void) { __CPROVER_dead_object = 0; __CPROVER_deallocated = 0; 
 #else
 void vp_c17_phase(void) { }
 #endif
+/* message type of the instance (structural case): 0 error, 1 normal, 2 chat (default), 3 groupchat, 4 headline */
+#ifndef VP_C17_TYPE
+#define VP_C17_TYPE 2
+#endif
+uint32_t vp_c17_type(void) { return VP_C17_TYPE; }
